@@ -101,6 +101,65 @@ def cases(seed, tier):
     return out
 
 
+def operator_runs(case, res, P, prng, targets):
+    """Reverse workflows under operator commands: a task of the target's
+    dependency closure fails (the workflow ends in ERROR), the operator
+    skips or reruns it.  A skipped task has not succeeded: nothing that
+    requires it may start (the requires clause of the join monitor watches
+    every task that leaves IDLE); after a rerun with a good result the
+    dependents start only then."""
+    wfd = lang.load(gdirect.to_yaml(P))[P['name']]
+    for target in targets[:2]:
+        closure = sorted(n for n in lang.requires_closure(wfd, target))
+        victims = [n for n in closure if n != target] or closure
+        victim = prng.choice(victims)
+        for mode in ('skip', 'rerun'):
+            st = {}
+
+            def phase(w, st=st, mode=mode):
+                if st.get('done'):
+                    return False
+                failed = sorted((t for t in w.rec.rows['task'].values()
+                                 if t['state'] == 'ERROR'),
+                                key=lambda t: t['name'])
+                if not failed:
+                    return False
+                st['done'] = failed[0]['name']
+                if mode == 'skip':
+                    w.op_rerun(failed[0]['id'], skip=True)
+                else:
+                    w.outcome_rules.insert(0, {'t': failed[0]['name'],
+                                               'outcome': ['ok', 'again']})
+                    w.op_rerun(failed[0]['id'], reset=True)
+                return True
+            c = dict(case)
+            c['outcomes'] = [o for o in case['outcomes']
+                             if o.get('t') != victim] + \
+                [{'t': victim, 'outcome': ['err', 'E-' + victim]}]
+            c['strategy'] = {'name': prng.choice(['fifo', 'random', 'lifo']),
+                             'seed': prng.randint(0, 10 ** 6)}
+            c['start'] = {'params': {'task_name': target}}
+            run = ec.execute(c, extra_monitors=[JoinLiveness()],
+                             phases=[phase, phase])
+            res['executions'] += 1
+            ec.merge_counts(res['events'], run.events)
+            ec.merge_counts(res['monitor_evaluations'], run.mon_evals)
+            res['interleavings'].append(run.ihash)
+            if run.inconclusive:
+                res['inconclusive'] = run.inconclusive
+                continue
+            if st.get('done'):
+                k_ = 'reverse-operator-' + mode
+                res['monitor_evaluations'][k_] = \
+                    res['monitor_evaluations'].get(k_, 0) + 1
+            desc = {'target': target, 'victim': victim, 'operator': mode,
+                    'strategy': c['strategy']}
+            for v in run.violations:
+                res['violations'].append(dict(v, schedule=desc))
+            res['keys'].append([gdirect.shape_hash(P), 'op-' + mode, target,
+                                victim, run.ihash])
+
+
 def run_case(case):
     res = {'violations': [], 'executions': 0, 'keys': [], 'events': {},
            'monitor_evaluations': {}, 'interleavings': [], 'states': []}
@@ -125,6 +184,8 @@ def run_case(case):
         targets = targets[:4]
     sample = None
     run = None
+    if case['kind'] == 'reverse':
+        operator_runs(case, res, P, prng, targets)
     for target in targets:
         for order in orders:
             for k in range(case['tx_orders']):
